@@ -27,6 +27,21 @@ CHECKS = {
         note="No axioms. `derivable`'s std/serde impl table and the control flow around the table are modelled (tied by K4/K6); user-requested derives are outside the claim.",
         technique="syn table translator + Gallina model + vm_compute-over-finite-kinds lifted by structural lemmas; translation validation of the emitted module against the model; compile-time bound assertions",
         design="DESIGN 4 C19, notes/C19.md"),
+    "C07": dict(
+        text="proof - unbounded: for every type-space graph (all node kinds of get_child_ids, any size, any root range) break_cycles terminates within 3*slots+4 steps per root without panicking, leaves no by-value cycle reachable from the roots, changes nothing when there is no such cycle, and otherwise only re-points slots that lay on an input cycle to a Box of their former target (Coq, no axioms).",
+        note="The theorems are about the Coq model of cycles.rs/id_to_box, tied to the code on every run by full-output correspondence on 9k (quick) / 116k (thorough) synthetic spaces and on the pre-break_cycles snapshots of real schema histories, with the theorems' hypotheses and a proven acyclicity checker evaluated on the real data. Schema-level claims (no Box without a schema cycle; containment through native type parameters) are checked by oracle, not proved: two recorded findings C07-1, C07-2. Round trip of recursive values: C03.",
+        technique="verified algorithm (DFS invariant proof in Coq) + full-output model/implementation correspondence + proven acyclicity checker on real IRs + independent oracle",
+        design="DESIGN 4 C07, notes/C07.md"),
+    "C17": dict(
+        text="proof (Coq, no axioms) of has_impl soundness for every type space and both code variants outside exactly characterised classes, with refutation witnesses for the pinned code; projections (props/variants/inner/builder/names) proved on the model; model = code and the property itself checked on every run against syn and rustc over a compiled world",
+        note="uses_* flag updates are not modelled: `uses_flags_cover` is a proven-sound checker evaluated on each real dump, plus a token-level check; F1 (Display on constrained string newtypes), F3 (serde_json for native defaults) and F4 (1-tuple variants) are recorded findings; F2 repaired by fix 2273521",
+        technique="verified algorithm model + translation-validation style checkers (vm_compute on the real IR) + compiled trait-bound assertions",
+        design="DESIGN 4 C17, notes/C17.md"),
+    "C18": dict(
+        text="Coq theorems (no axioms) over a model of the emitted builder template and of generate_serde_attr with abstract Rust values: build succeeds iff every Required field was set and the last argument of every set field converts; built fields are the converted last arguments or the builder defaults, which equal serde's missing-member defaults for every non-flattened field; first failing slot's message names the field; struct->builder->struct is the identity; Type::builder() path. Tied every run to compiled generated code: the real builders are driven through all subsets/sequences of setters (incl. failing conversions) and compared with the model instantiated on the dumped IR and, independently, with schema-level oracles and from_value of the same object.",
+        note="Trusted: Coq kernel/vm_compute, the hand-written model (tied by correspondence + syn template tie, not proved equal to the Rust), the serde_derive missing-member rules as modelled in de_missing (validated by execution), tocoq/world/vh glue. External functions (Default, default fns, TryInto, flatten fallback, sanitize) are section variables without hypotheses, instantiated by tables measured on the same compiled module. Two recorded departures: flattened Required `extra` (F1) and flattened Option subtypes of anyOf structs (F2), both refuted in Coq with witnesses.",
+        technique="machine-checked proof (Coq) + model/compiled-code correspondence + direct property evaluation on compiled builders",
+        design="DESIGN 4 C18, notes/C18.md"),
 }
 
 NOT_YET = "not yet built in this round (planned, see DESIGN.md section 7)"
